@@ -464,14 +464,40 @@ def r4_filters(ctx) -> None:
               f'TrialFilter.__call__ {"selects" if wrong and wrong[1] else "rejects"} a trial it should not: '
               + (', '.join(f'{k}={sorted(v) if isinstance(v, frozenset) else v}' for k, v in wrong[0].items()) if wrong else ''),
               construct=fld, func=call.qualname)
-  # in-RAM supporter
+  # in-RAM supporter: interpreted on the same kind of finite model (the selection loop runs over model trials)
+  import types as _types
   ram = ctx.index.need_class('vizier._src.pythia.local_policy_supporters.InRamPolicySupporter')
   fr = ram.methods['GetTrials']
-  t2 = unparse(fr.node, 0)
-  frags = ['t.status != status_matches', 't.id < min_trial_id', 't.id > max_trial_id', 't.id not in trial_id_set']
-  missing = [x for x in frags if x not in t2]
-  ctx.check(not missing, 'R4', 'InRamPolicySupporter.GetTrials applies every filter', fr.node, 'status / min / max / ids',
-            f'missing tests: {missing}', construct=str(missing), func=fr.qualname)
+  kw = [a.arg for a in fr.node.args.kwonlyargs] + [p_ for p_ in fr.params if p_ != 'self']
+  need = {'trial_ids', 'min_trial_id', 'max_trial_id', 'status_matches'}
+  if not need <= set(kw):
+    raise AnalysisError(f'InRamPolicySupporter.GetTrials: parameters {sorted(need - set(kw))} missing')
+  trials = [_types.SimpleNamespace(id=i, status=st_) for i in (0, 1, 2, 3) for st_ in ('A', 'C')]
+  wrong2 = None
+  rows2 = 0
+  try:
+    for ids in (None, [], [0], [1, 3]):
+      for lo in (None, 0, 2):
+        for hi in (None, 0, 2):
+          for status in (None, 'A'):
+            env = {k_: None for k_ in kw}
+            env.update({'trial_ids': ids, 'min_trial_id': lo, 'max_trial_id': hi, 'status_matches': status,
+                        'include_intermediate_measurements': True, 'self.trials': list(trials), 'self.study_guid': 'g'})
+            got = pathcond.run_concrete(fr.node, env, tolerant=True)
+            rows2 += 1
+            want_ = [t for t in trials if (ids is None or t.id in ids) and (lo is None or t.id >= lo) and (hi is None or t.id <= hi)
+                     and (status is None or t.status == status)]
+            if not isinstance(got, list):
+              raise pathcond.NoValue('GetTrials did not return the list it built')
+            if got != want_ and wrong2 is None:
+              wrong2 = (dict(trial_ids=ids, min_trial_id=lo, max_trial_id=hi, status_matches=status),
+                        [(t.id, t.status) for t in got], [(t.id, t.status) for t in want_])
+  except pathcond.NoValue as e:
+    raise AnalysisError(f'InRamPolicySupporter.GetTrials: cannot be evaluated on the finite model ({e})')
+  ctx.count('inram_gettrials_model_rows', rows2)
+  ctx.check(wrong2 is None, 'R4', 'InRamPolicySupporter.GetTrials applies every filter', fr.node, f'status / min / max / ids ({rows2} model rows)',
+            (f'with {wrong2[0]} the supporter returns {wrong2[1]} instead of {wrong2[2]}' if wrong2 else ''),
+            construct='inram-filters', func=fr.qualname)
 
 
 # ----------------------------------------------------------------------- R7
